@@ -30,7 +30,8 @@ def run_demo(src, wt):
     man = find_manifest(src)
     if not man:
         return None, "no Cargo.toml"
-    return sh(f"cargo run --offline --quiet --manifest-path {man}", env={"CARGO_TARGET_DIR": os.path.join(wt, "target-demo"), "KHTTP_ROOT": wt})
+    # one target directory per variant: two demo packages with the same name and version would otherwise share a binary
+    return sh(f"cargo run --offline --quiet --manifest-path {man}", env={"CARGO_TARGET_DIR": os.path.join(wt, "target-demo-" + os.path.basename(src.rstrip("/"))), "KHTTP_ROOT": wt})
 
 
 def confirm(pid, x):
